@@ -57,10 +57,12 @@ EDIT_CLASSES = [
     # a type so far only in the error position of a `Result` starts being emitted; a member-less type changes its kind
     ("emit_error_type", False, "EventHashData", "payload_type"),
     ("unit_kind", False, "StructHashData", "is_enum"),
-    # what the tool does not read today (the payload type of a tuple variant, `#[deprecated]` on a command): editing it
-    # changes nothing that is generated - and if it ever starts to matter it has to enter the key as well
+    # what the tool does not read today (the payload type of a tuple variant): editing it changes nothing that is generated -
+    # and if it ever starts to matter it has to enter the key as well
     ("variant_payload", False, "FieldHashData", "variant_payload_type"),
-    ("cmd_deprecated", False, "CommandHashData", "deprecated"),
+    # an attribute the tool does not read (`#[deprecated]` on a command) moves the command to another line: nothing in the
+    # bindings changes, but the dependency visualisation prints `file:line` of every command (fix aa6995a: the line is hashed)
+    ("cmd_deprecated", False, "CommandHashData", "line_number"),
     ("cmd_order", False, "CommandHashData", "name"),
     ("param_order", False, "ParameterHashData", "name"),
     ("field_order", False, "FieldHashData", "name"),
